@@ -468,6 +468,8 @@ where
                     results_err_sender.clone(),
                 ))
                 .unwrap();
+                #[cfg(similari_verif)]
+                crate::verif_hooks::point("store_distances_enqueued", tracks_count as u64);
             }
         }
 
